@@ -17,24 +17,37 @@ theorem dial_accepts_iff (requested : List Str) (copts : Option Copts) (key : St
       h.get (s "Sec-Websocket-Accept") = secWebSocketAccept key ∧
       verifySubprotocol requested h = true ∧
       verifyServerExtensions copts h = .ok r := by
-  sorry
+  unfold verifyServerResponse
+  split
+  · simp_all
+  split
+  · simp_all
+  split
+  · simp_all
+  split
+  · simp_all
+  split
+  · simp_all
+  split <;> simp_all
 
 /-- the subprotocol in the response must be one the client asked for (case-insensitively), or absent. -/
 theorem subprotocol_ok_iff (requested : List Str) (h : Hdr) :
     verifySubprotocol requested h = true ↔
       h.get (s "Sec-Websocket-Protocol") = [] ∨ ∃ sp ∈ requested, equalFold sp (h.get (s "Sec-Websocket-Protocol")) = true := by
-  sorry
+  simp [verifySubprotocol, List.isEmpty_iff]
 
 /-- an accept value computed for another key is rejected (unless SHA-1/base64 collide on the two keys). -/
 theorem wrong_accept_rejected (requested : List Str) (copts : Option Copts) (key other : Str) (h : Hdr)
     (ha : h.get (s "Sec-Websocket-Accept") = secWebSocketAccept other)
     (hne : secWebSocketAccept other ≠ secWebSocketAccept key) :
     verifyServerResponse requested copts key 101 h = none := by
-  sorry
+  unfold verifyServerResponse
+  simp [ha, hne]
 
 /-- any status other than 101 is rejected whatever the headers say. -/
 theorem non101_rejected (requested : List Str) (copts : Option Copts) (key : Str) (status : Nat) (h : Hdr)
     (hs : status ≠ 101) : verifyServerResponse requested copts key status h = none := by
-  sorry
+  unfold verifyServerResponse
+  simp [hs]
 
 end WS.Props.C13
